@@ -261,12 +261,22 @@ def case_fn(case):
             wn_c = 10000.0 / keep[:, 0]
             s_c = 0.01 * (1.0 + 0.2 * np.sin(np.arange(n) * 1.3) + 0.05 * np.arange(n))
             oc = np.argsort(wn_c)
-            bc, _, sw_c, _ = ref.overlap_bin(wn_c[oc], ref.midpoint_widths(wn_c[oc]), s_c[oc], R['wn'], R['wnwidth'])
+            wmid = ref.midpoint_widths(wn_c[oc])
+            lo_n, hi_n = wn_c[oc] - wmid / 2, wn_c[oc] + wmid / 2
+            ordered_native = bool(np.all(np.diff(lo_n) >= 0) and np.all(np.diff(hi_n) >= 0) and
+                                  np.all(hi_n[:-1] <= lo_n[1:] * (1 + 1e-12)))
+            bc, _, sw_c, _ = ref.overlap_bin(wn_c[oc], wmid, s_c[oc], R['wn'], R['wnwidth'])
+            # (C05 speaks of native grids with non-overlapping ordered bins: on strongly uneven centres the implied
+            # mid-point bins overlap, and nothing is demanded)
             try:
+                if not ordered_native:
+                    raise StopIteration
                 gc = np.asarray(b.bindown(wn_c.copy(), s_c.copy())[1], float)
                 lv = sw_c > 1e-9 * R['wnwidth']
                 if gc.shape == bc.shape and lv.any():
                     r.eq(gc[lv], bc[lv], 'binned-model', 'binner/model-on-observation-centres/' + cls, rows=keep)
+            except StopIteration:
+                r.count('model-on-centres-skipped-overlapping-native-bins')
             except Exception as ex:
                 r.check(False, 'no-exception', 'binner/raised-on-centres/%s/%s' % (type(ex).__name__, cls), exc=repr(ex))
         # element-by-element alignment: bin i of the binned model is the bin of spectrum[i]
